@@ -9,11 +9,13 @@ What is modelled (the part that is logic)
   insertion order;
 * `validate_params` of every elementary class, assert by assert, in source
   order (the first failing assert decides the exception kind);
-* `BaseART.set_params`, literally: `key.partition("__")`, unknown name →
-  `ValueError`, plain names are ASSIGNED through `setattr` while the loop runs,
-  nested names are delegated afterwards, `validate_params(local_params)` runs
-  last — so a rejected value stays stored and the names before an unknown name
-  stay assigned (DESIGN finding F25);
+* `BaseART.set_params`, literally (code after the F25 repair, /repo 41ad083):
+  `key.partition("__")`, unknown name → `ValueError` while the names are only
+  being collected, then `validate_params(local_params)`, only then the plain
+  names are assigned through `setattr`, last the nested names are delegated — a
+  call rejected for an unknown name or by validation assigns nothing; a failure
+  of the nested routing (`AttributeError` on a value that is no estimator) still
+  comes after the plain names were assigned;
 * `__getattr__` (instance `__dict__` first, then `params`), `__setattr__`
   (`params` first, then `__dict__`);
 * ownership: a weight is `own v` or `view arr row`; `mutateRow` rewrites a row
@@ -186,24 +188,30 @@ def setAttr (e : Est) (k : String) (v : Val) : Est :=
 
 /-- state of the `for key, value in params.items()` loop of `set_params` -/
 structure LoopSt where
-  est : Est
   /-- `local_params` -/
   loc : Store
+  /-- `plain_params`, in call order (keyword arguments have distinct names; for the final store
+  "later wins" is the same as the dict overwrite) -/
+  plain : List (String × Val)
   /-- `nested_params`, flat, in call order: (key, sub_key, value) -/
   nested : List (String × String × Val)
   deriving DecidableEq, Repr
 
-/-- the loop; stops at the first unknown name with `ValueError`, keeping what was assigned before -/
-def setLoop : LoopSt → List (String × Val) → LoopSt × Option Err
+/-- the first loop: only COLLECTS; stops at the first unknown name with `ValueError`.
+`p` is `valid_params`, the live `self.params`, which the loop does not touch. -/
+def setLoop (p : Store) : LoopSt → List (String × Val) → LoopSt × Option Err
   | st, [] => (st, none)
   | st, (key, v) :: rest =>
     let pk := partitionKey key
-    -- `valid_params` is the live `self.params`
-    if (get? st.est.params pk.1).isSome then
+    if (get? p pk.1).isSome then
       match pk.2 with
-      | some sub => setLoop { st with nested := st.nested ++ [(pk.1, sub, v)] } rest
-      | none => setLoop { est := setAttr st.est pk.1 v, loc := upsert st.loc pk.1 v, nested := st.nested } rest
+      | some sub => setLoop p { st with nested := st.nested ++ [(pk.1, sub, v)] } rest
+      | none => setLoop p { st with plain := st.plain ++ [(pk.1, v)], loc := upsert st.loc pk.1 v } rest
     else (st, some .value)
+
+/-- `for key, value in plain_params.items(): setattr(self, key, value)` -/
+def assignAll (e : Est) (kvs : List (String × Val)) : Est :=
+  kvs.foldl (fun e kv => setAttr e kv.1 kv.2) e
 
 def eraseDupKeys : List String → List String
   | [] => []
@@ -234,22 +242,21 @@ structure SetRes where
   delegated : List (Nat × List (String × Val))
   deriving DecidableEq, Repr
 
-/-- `BaseART.set_params(**kvs)` with `validate_params = validate checks` -/
+/-- `BaseART.set_params(**kvs)` with `validate_params = validate checks` (code as of /repo 41ad083):
+collect and reject unknown names, validate `local_params`, only then assign the plain names,
+then route the nested ones. -/
 def setParams (checks : List Check) (e : Est) (kvs : List (String × Val)) : SetRes :=
   if kvs.isEmpty then ⟨e, none, []⟩
   else
-    match setLoop ⟨e, e.params, []⟩ kvs with
-    | (st, some err) => ⟨st.est, some err, []⟩
+    match setLoop e.params ⟨e.params, [], []⟩ kvs with
+    | (_, some err) => ⟨e, some err, []⟩
     | (st, none) =>
-      match runNested st.est.params st.nested with
-      | (d, some err) => ⟨st.est, some err, d⟩
-      | (d, none) => ⟨st.est, validate checks st.loc, d⟩
-
-/-- The repair F25 asks for, as a specification: same verdict, but the object is only
-replaced when the call succeeds (validation precedes assignment). -/
-def setParamsAtomic (checks : List Check) (e : Est) (kvs : List (String × Val)) : SetRes :=
-  let r := setParams checks e kvs
-  if r.err.isNone then r else ⟨e, r.err, []⟩
+      match validate checks st.loc with
+      | some err => ⟨e, some err, []⟩
+      | none =>
+        let e' := assignAll e st.plain
+        let r := runNested e'.params st.nested
+        ⟨e', r.2, r.1⟩
 
 /-! ### class table (re-extracted from the source and compared on every run) -/
 
